@@ -374,6 +374,11 @@ class RefInst:
             rule = self.ref.rule(full, self.tag, self.epoch, j, er.get("kwargs"), dp)
             ret = None
             if rule is not None:
+                if rule.get("write") is not None:
+                    nid = self.rp.id_of_value.get(vkey(rule["write"]["value"]))
+                    if nid is not None:
+                        self.ref.count_write(self.model_tag, self.epoch)
+                        self.state = nid
                 sends = rule.get("sends") or []
                 if rule.get("sends_jlt") is not None and not (j < rule["sends_jlt"]):
                     sends = []
